@@ -113,9 +113,35 @@ def check(repo, rep):
         dfield = datafields[0] if datafields else '_data'
         okr = any((gd := norm_cmp(l.conds[-1][0], l.conds[-1][1])) and gd[0] == 'is' and gd[1] == ('attr', ('self',), dfield) and gd[2] == ('c', None) for l in raises if l.conds)
         rep.ob('data raises while nothing was frozen yet (before the first rewind)', okr, W(g), '_Recorder.data:guard', 'raising conditions %s' % [show(l.conds[-1][0])[:60] for l in raises if l.conds])
+        has_getattr = cx.model.find_method(mod, rc, '__getattr__') is not None
+        for l in raises:
+            en = exc_name(l)
+            rep.ob('the data guard raises an error that attribute lookup does not swallow (AttributeError from a property falls back to __getattr__, which forwards `data` to the wrapped source)',
+                   not (has_getattr and en == 'AttributeError'), W(l.node), '_Recorder.data:exception-type', 'raises %s in a class whose __getattr__ delegates to the wrapped source' % en)
         rep.ob('data returns the frozen recording', bool(rets) and all(l.value == ('attr', ('self',), dfield) for l in rets), W(g), '_Recorder.data:returns', 'returns %s' % [show(l.value)[:60] for l in rets])
         init0 = any(d['method'] == '__init__' and d['value'] == ('c', None) for d in defs.get(dfield, []))
         rep.ob('the recording starts unset (None) at construction', init0, W(cx.fn(mod, '_Recorder.__init__')), '_Recorder.__init__:data-none')
+    # ---------------------------------------------------------------- 3b. the limiter's view of the recording uses the budget that read() enforces
+    lc = cx.cls(mod, '_Limiter', required=False)
+    if lc is not None:
+        ldefs = cx.field_defs(mod, '_Limiter')
+        MS = [f for f, ds in ldefs.items() if ds and all(P.call('round', P.prod(P.param('max_read'), P.role('sampling_rate')))(d['value']) for d in ds)]
+        BPS = [f for f, ds in ldefs.items() if ds and all(P.prod(P.role('sample_width'), P.role('channels'))(d['value']) for d in ds)]
+        for n in lc.body:
+            if isinstance(n, ast.FunctionDef) and n.name == 'data':
+                for l in cx.leaves_of(mod, lc, n):
+                    if l.outcome != 'return':
+                        continue
+                    v = l.value
+                    inner = P.attr(P.attr(SELF, '_audio_source'), 'data')
+                    if inner(v):
+                        rep.ob('the limiter exposes the inner recording', True, W(n))
+                        continue
+                    isms = P.Pat(lambda t: t[0] == 'attr' and t[1] == ('self',) and t[2] in MS, 'budget')
+                    isbps = P.Pat(lambda t: (t[0] == 'attr' and t[1] == ('self',) and t[2] in BPS) or P.prod(P.role('sample_width'), P.role('channels'))(t), 'bps')
+                    ok = v[0] == 'sub' and inner(v[1]) and v[2][0] == 'slice' and v[2][1] in (None, ('c', 0), ('c', None)) and v[2][2] is not None and P.prod(isms, isbps)(v[2][2])
+                    rep.ob('the limiter trims the recording with the SAME sample budget that read() enforces (round(max_read*rate) samples x bytes per sample)', ok, W(l.node), '_Limiter.data:trim',
+                           'data is %s' % show(v)[:140], sample=dict(limiter_data=show(v)[:120]))
     # ---------------------------------------------------------------- 4. reset-completeness of the wrappers and rewind propagation
     nreset = 0
     for cname in WRAPPERS:
